@@ -3,7 +3,11 @@
 (* that mutate (or step) a parameter, for-in loops (one and two variables,   *)
 (* over arrays and objects) whose body stores to or steps the loop variable, *)
 (* pluck, and the length-changing methods pop / popfirst / push through any  *)
-(* path, over two variables and the input document `$`.  Every history is emitted with the complete expected state  *)
+(* path, over two variables and the input document `$`; right-hand sides,    *)
+(* arguments, iterables and match subjects may be EXPRESSIONS (EvalR: an      *)
+(* assignment or update used as a value, a match expression, a call, sort,   *)
+(* literals of these), and a match statement binds names by patterns and     *)
+(* stores to / steps them.  Every history is emitted with the complete expected state  *)
 (* (x, y, $) after every operation, under the intended semantics (JqHeap     *)
 (* part 1) and, where it differs, under the slice-header semantics of the    *)
 (* pinned code without / with padding reads (part 3: "g0" / "g1").           *)
@@ -13,15 +17,28 @@
 (*         Mode = "names"   a prefix from NamePrefixes, then ONE operation    *)
 (*                          whose path uses keys that are also the names of   *)
 (*                          prototype methods (length, pluck, push)           *)
+(*         Mode = "expr"    a prefix from EPre, then ONE statement that puts   *)
+(*                          the value of an expression (every form of EForms  *)
+(*                          over a source place: a path, an assignment or an  *)
+(*                          update used as a value, a match expression, a    *)
+(*                          call, sort / pop / popfirst / pluck, a literal)   *)
+(*                          into a sink (every form of ESinks: an assignment, *)
+(*                          an element of an array literal, a member of an    *)
+(*                          object literal, an argument, an iterable, push,   *)
+(*                          the subject of a match whose patterns bind names  *)
+(*                          at every position), then a store to / a step of   *)
+(*                          every scalar place that exists on either side     *)
 (*         Mode = "given"   the histories in given.json (seeded random ones   *)
-(*                          over Big, written by the harness); operations the *)
-(*                          statement leaves open in their state are skipped  *)
+(*                          over Big, and ones whose statements put random     *)
+(*                          expressions into random sinks, written by the     *)
+(*                          harness); operations the statement leaves open    *)
+(*                          in their state are skipped                         *)
 EXTENDS JqHeap
 CONSTANTS Mode, MaxOps, Wide
 
 Fuel == 40
 ObsNames == {"x", "y", "$"}
-Names == {"x", "y", "$", "v", "e", "g"}
+Names == {"x", "y", "$", "v", "e", "g", "p", "q"}      \* v: parameter, e / g: loop variables, p / q: names bound by a pattern
 Sems == {"I", "G0", "G1"}
 
 -----------------------------------------------------------------------------
@@ -46,6 +63,28 @@ Call(f, p) == Op("call", p, NoR, f)
 \* array / the member value of an object in the two-variable form
 Loop(f, p) == Op("loop", p, NoR, f)
 Loop2(f, p) == Op("loop2", p, NoR, f)
+\* expressions that are more than a literal or a path (an expression may occur wherever a value is used)
+RSort(p) == [r |-> "sort", p |-> p]                          \* p.sort(): a NEW array that holds copies of p's elements, in order
+RArrOf(es) == [r |-> "arrof", es |-> es]                     \* [e1, e2, ...]: a new array; scalars are copied into it, containers shared
+RObjOf(e) == [r |-> "objof", e |-> e]                        \* {k: e}
+RAsg(p, e) == [r |-> "asg", p |-> p, e |-> e]                \* (p = e) used as a value: the value stored
+RUpdE(kind, p) == [r |-> "upd", kind |-> kind, p |-> p]      \* (p += 2), (++p), (p++), ... used as a value
+RMatchE(e, pats, arm) == [r |-> "match", e |-> e, pats |-> pats, arm |-> arm]   \* match (e) { pat, pat => arm }: arm is an expression
+RCallE(f, e) == [r |-> "call", f |-> f, e |-> e]             \* id(e): return v   h0: return v[0]   hk: return v.k   hj: return v.j   gx: return x   ga: return x = v
+RMethE(kind, p) == [r |-> "meth", kind |-> kind, p |-> p]    \* p.pop() / p.popfirst() / p.push(6) used as a value
+\* patterns of a match: a name (binds the value: a scalar is copied, a container shared), a number, an array of patterns
+PN(n) == [pt |-> "name", nm |-> n]
+PL(n) == [pt |-> "lit", n |-> n]
+PA(ps) == [pt |-> "arr", ps |-> ps]
+\* match (r) { pats => { body f } }:  mr: p = 9   mp: p++   ma: p += 2   mk: p.k = 9   mi: p[0] = 9   mq: p.k++
+\*                                    nr: q = 9   np: q++   nk: q.k = 9  ni: q[0] = 9  m2: p = 9; q++
+Match(r, pats, f) == [kind |-> "match", p |-> Path("x", <<>>), r |-> r, f |-> f, pats |-> pats]
+\* f(r) / for (e in r) / p.push(r) with an expression r (with r = NoR: the path p, the number 6)
+CallR(f, r) == Op("call", Path("x", <<>>), r, f)
+LoopR(f, r) == Op("loop", Path("x", <<>>), r, f)
+Loop2R(f, r) == Op("loop2", Path("x", <<>>), r, f)
+PushR(p, r) == Op("push", p, r, "")
+ArgOf(op) == IF op.r.r = "none" THEN RPath(op.p) ELSE op.r
 Upd(kind, p) == Op(kind, p, NoR, "")      \* cadd: p += 2  csub: p -= 2   cstr: p += "s"  preinc postinc predec postdec
 UpdKinds == {"cadd", "csub", "cstr", "preinc", "postinc", "predec", "postdec"}
 \* length-changing methods through any path:  print p.pop() / p.popfirst() / p.push(6)
@@ -53,9 +92,14 @@ Meth(kind, p) == Op(kind, p, NoR, "")
 MethKinds == {"pop", "popfirst", "push"}
 CallFs == {"fk", "fi", "fg", "fr", "fp", "fa", "fq"}
 LoopFs == {"lr", "lk", "li", "lp", "lm", "la", "lq"}
-BodyVar(f) == IF f \in CallFs THEN "v" ELSE "e"
-BodyPath(f) == P(BodyVar(f), CASE f \in {"fk", "lk", "fq", "lq"} -> <<K("k")>> [] f \in {"fi", "li"} -> <<I(0)>> [] f = "fg" -> <<I(2)>> [] OTHER -> <<>>)
-BodyUpd(f) == CASE f \in {"fp", "lp", "fq", "lq"} -> "postinc" [] f = "lm" -> "predec" [] f \in {"fa", "la"} -> "cadd" [] OTHER -> ""
+MatchPFs == {"mr", "mp", "ma", "mk", "mi", "mq"}
+MatchQFs == {"nr", "np", "nk", "ni"}
+MatchFs == MatchPFs \cup MatchQFs \cup {"m2"}
+BodyVar(f) == CASE f \in CallFs -> "v" [] f \in MatchPFs -> "p" [] f \in MatchQFs -> "q" [] OTHER -> "e"
+BodyPath(f) == P(BodyVar(f), CASE f \in {"fk", "lk", "fq", "lq", "mk", "mq", "nk"} -> <<K("k")>> [] f \in {"fi", "li", "mi", "ni"} -> <<I(0)>> [] f = "fg" -> <<I(2)>> [] OTHER -> <<>>)
+BodyUpd(f) == CASE f \in {"fp", "lp", "fq", "lq", "mp", "mq", "np"} -> "postinc" [] f = "lm" -> "predec" [] f \in {"fa", "la", "ma"} -> "cadd" [] OTHER -> ""
+\* the names a body needs to be bound
+BodyNeeds(f) == IF f = "m2" THEN {"p", "q"} ELSE {BodyVar(f)}
 
 X(ss) == P("x", ss)
 Y(ss) == P("y", ss)
@@ -220,10 +264,13 @@ UpdStep(sem, st, op) ==
                  THEN R3(st, Missing, "open")                      \* C11 owns the fault of ++ on a member of a scalar
                  ELSE R3(as.st, res, as.status)
 
-\* the body of a function / a loop: a store to, or an update of, the parameter / loop variable or a part of it
-Body(sem, st, f, n) ==
+\* the body of a function / a loop / a match arm: a store to, or an update of, the parameter / loop variable / bound name or a part of it
+Body1(sem, st, f, n) ==
   IF BodyUpd(f) = "" THEN AsP(sem, st, BodyPath(f), Num(n))
   ELSE LET r == UpdStep(sem, st, Upd(BodyUpd(f), BodyPath(f))) IN R3(r.st, Missing, r.status)
+Body(sem, st, f, n) ==
+  IF f = "m2" THEN LET a == Body1(sem, st, "mr", n) IN IF a.status # "ok" THEN a ELSE Body1(sem, a.st, "np", n)
+  ELSE Body1(sem, st, f, n)
 
 RECURSIVE LoopFrom(_, _, _, _, _)
 LoopFrom(sem, st, elems, i, f) ==
@@ -232,65 +279,287 @@ LoopFrom(sem, st, elems, i, f) ==
   ELSE LET r == Body(sem, SetEnv(st, "e", GCopy(elems[i])), f, 9)
        IN IF r.status # "ok" THEN r ELSE LoopFrom(sem, r.st, elems, i + 1, f)
 
-(* one operation: [st, res (Missing = the statement prints no result), status] *)
-Step(sem, st, op) ==
-  CASE op.kind = "set" ->
-         IF op.r.r = "path" THEN
+\* a new array that holds the (already copied) values vals
+MkArr(sem, st, vals) ==
+  IF sem = "I" THEN LET s1 == Alloc(st, ArrC(vals)) IN [st |-> s1, val |-> Arr(Len(s1.heap))]
+  ELSE LET n == Len(vals)
+           base == Len(st.heap)
+           s1 == IF n = 0 THEN st ELSE [st EXCEPT !.heap = @ \o [i \in 1..n |-> [k |-> "cell", v |-> vals[i]]]]
+           s2 == GAlloc(s1, [k |-> "slots", s |-> IF n = 0 THEN <<>> ELSE [i \in 1..n |-> base + i]])
+       IN [st |-> s2, val |-> GHdr(Len(s2.heap), n, n)]
+
+\* pop / popfirst / push(arg) on the array held in location p
+MethStep(sem, st, kind, p, arg) ==
+         \* the receiver must be an array (a method of anything else: C15's / C16's)
+         LET rd == RdQ(sem, st, p) IN
+         IF rd.status # "ok" THEN rd
+         ELSE IF rd.res.t # "arr" THEN R3(st, Missing, "open")
+         ELSE IF sem = "I" THEN
+              LET r == CASE kind = "pop" -> ListPop(rd.st.heap, rd.res.id)
+                         [] kind = "popfirst" -> ListPopFirst(rd.st.heap, rd.res.id)
+                         [] OTHER -> ListPush(rd.st.heap, rd.res.id, arg)
+              IN R3([rd.st EXCEPT !.heap = r.h], r.res, "ok")
+         ELSE LET r == GMethod(rd.st, p, rd.res, kind, arg) IN R3(r.st, r.res, r.status)
+
+\* the places a store at p goes through: (container, position) pairs with the length of each array; a store whose
+\* right-hand side changes this trail is not fixed by the statement (the pinned code resolves the target first)
+RECURSIVE Trail(_, _, _)
+Trail(st, cur, sels) ==
+  IF sels = <<>> THEN <<>>
+  ELSE LET sel == Head(sels) IN
+  IF cur.t = "arr" /\ sel.s = "idx" THEN
+     LET items == st.heap[cur.id].items
+         j == Norm(Len(items), sel.i)
+     IN <<[id |-> cur.id, j |-> j, k |-> "", n |-> Len(items)]>>
+        \o (IF j >= 0 /\ j < Len(items) THEN Trail(st, items[j + 1], Tail(sels)) ELSE <<[id |-> 0, j |-> 0, k |-> "new", n |-> 0]>>)
+  ELSE IF cur.t = "obj" /\ sel.s = "key" THEN
+     LET m == st.heap[cur.id].m
+     IN <<[id |-> cur.id, j |-> 0, k |-> sel.k, n |-> 0]>>
+        \o (IF sel.k \in DOMAIN m THEN Trail(st, m[sel.k], Tail(sels)) ELSE <<[id |-> 0, j |-> 0, k |-> "new", n |-> 0]>>)
+  ELSE <<[id |-> 0, j |-> 0, k |-> cur.t, n |-> 0]>>
+TrailOf(st, p) == Trail(st, st.env[p.base], p.sels)
+
+\* the deepest proper prefix of p that resolves to an existing container
+RECURSIVE Deepest(_, _, _)
+Deepest(st, p, n) ==
+  IF n < 0 THEN [n |-> -1, v |-> Unset]
+  ELSE LET v == ReadFrom(st, st.env[p.base], SubSeq(p.sels, 1, n)) IN
+       IF IsCont(v) THEN [n |-> n, v |-> v] ELSE Deepest(st, p, n - 1)
+
+\* would storing the container v at p put it below itself?
+CycleI(st, p, v) ==
+  /\ IsCont(v) /\ p.sels # <<>>
+  /\ LET d == Deepest(st, p, Len(p.sels) - 1) IN d.n >= 0 /\ d.v.id \in ReachFrom(st, v, Fuel)
+
+\* the variables a statement mentions
+RECURSIVE RhsBases(_)
+RhsBases(r) ==
+  CASE r.r \in {"path", "pluck", "sort", "meth", "upd"} -> {r.p.base}
+    [] r.r = "asg" -> {r.p.base} \cup RhsBases(r.e)
+    [] r.r = "arrof" -> UNION {RhsBases(r.es[i]) : i \in 1..Len(r.es)}
+    [] r.r = "objof" -> RhsBases(r.e)
+    [] r.r = "match" -> RhsBases(r.e) \cup RhsBases(r.arm)
+    [] r.r = "call" -> RhsBases(r.e) \cup (IF r.f \in {"gx", "ga"} THEN {"x"} ELSE {})
+    [] OTHER -> {}
+\* the variables an expression stores to or steps (a name first assigned inside a function or a match arm lives
+\* in that frame only: which frame a new variable belongs to is not this property's matter)
+RECURSIVE WriteBases(_)
+WriteBases(r) ==
+  CASE r.r = "asg" -> {r.p.base} \cup WriteBases(r.e)
+    [] r.r \in {"upd", "meth"} -> {r.p.base}
+    [] r.r = "arrof" -> UNION {WriteBases(r.es[i]) : i \in 1..Len(r.es)}
+    [] r.r = "objof" -> WriteBases(r.e)
+    [] r.r = "match" -> WriteBases(r.e) \cup WriteBases(r.arm)
+    [] r.r = "call" -> WriteBases(r.e) \cup (IF r.f = "ga" THEN {"x"} ELSE {})
+    [] OTHER -> {}
+\* how many length-changing method calls an expression contains
+RECURSIVE MethCount(_)
+MethCount(r) ==
+  CASE r.r = "meth" -> 1
+    [] r.r = "asg" -> MethCount(r.e)
+    [] r.r = "arrof" -> IF r.es = <<>> THEN 0 ELSE MethCount(Head(r.es)) + MethCount([r EXCEPT !.es = Tail(@)])
+    [] r.r = "objof" -> MethCount(r.e)
+    [] r.r = "match" -> MethCount(r.e) + MethCount(r.arm)
+    [] r.r = "call" -> MethCount(r.e)
+    [] OTHER -> 0
+
+BindAll(st, b) == [st EXCEPT !.env = [n \in Names |-> IF \E i \in 1..Len(b) : b[i].n = n
+                                                    THEN b[CHOOSE i \in 1..Len(b) : b[i].n = n /\ \A j \in (i + 1)..Len(b) : b[j].n # n].v ELSE @[n]]]
+Unbind(st) == [st EXCEPT !.env["p"] = Unset, !.env["q"] = Unset]
+
+(* does the value v match the pattern pat?  m: "yes" / "no" / "open" (not fixed here: what a literal equals is   *)
+(* C05's / C19's) / "wild"; b: the bindings, a sequence of [n, v].  A name binds the VALUE: a scalar is copied.  *)
+RECURSIVE PatBind(_, _, _, _), PatBindSeq(_, _, _, _, _, _)
+PatBind(sem, st, pat, v) ==
+  CASE pat.pt = "name" -> [m |-> "yes", b |-> <<[n |-> pat.nm, v |-> GCopy(v)]>>]
+    [] pat.pt = "lit" ->
+         IF v.t = "specnull" THEN [m |-> "wild", b |-> <<>>]
+         ELSE IF v.t \notin {"num", "null", "missing"} THEN [m |-> "open", b |-> <<>>]
+         ELSE [m |-> IF v.t = "num" /\ v.n = pat.n THEN "yes" ELSE "no", b |-> <<>>]
+    [] OTHER ->
+         IF v.t # "arr" THEN [m |-> IF v.t = "specnull" THEN "wild" ELSE "no", b |-> <<>>]
+         ELSE LET es == ElemsOf(sem, st, v) IN
+              IF Len(es) # Len(pat.ps) THEN [m |-> "no", b |-> <<>>]
+              ELSE PatBindSeq(sem, st, pat.ps, es, 1, <<>>)
+PatBindSeq(sem, st, ps, es, i, acc) ==
+  IF i > Len(ps) THEN [m |-> "yes", b |-> acc]
+  ELSE LET r == PatBind(sem, st, ps[i], es[i]) IN
+       IF r.m # "yes" THEN r ELSE PatBindSeq(sem, st, ps, es, i + 1, acc \o r.b)
+\* the alternatives of a case, in order: the first that matches
+RECURSIVE PatAlts(_, _, _, _, _)
+PatAlts(sem, st, pats, v, i) ==
+  IF i > Len(pats) THEN [m |-> "no", b |-> <<>>]
+  ELSE LET r == PatBind(sem, st, pats[i], v) IN IF r.m = "no" THEN PatAlts(sem, st, pats, v, i + 1) ELSE r
+
+(* The value of an expression: [st, res, status].  res is the value itself: whoever uses it copies it (GCopy: a  *)
+(* scalar is a value, a container a reference), so that by construction nothing that is done to the place the    *)
+(* value is put into can reach the place it came from, and the other way round, unless it is a container.        *)
+RECURSIVE EvalR(_, _, _), SetStep(_, _, _, _), EvalList(_, _, _, _), MatchEnter(_, _, _, _)
+EvalList(sem, st, es, acc) ==
+  IF es = <<>> THEN [st |-> st, vals |-> acc, status |-> "ok"]
+  ELSE LET e == EvalR(sem, st, Head(es)) IN
+       IF e.status # "ok" THEN [st |-> st, vals |-> acc, status |-> e.status]
+       ELSE IF e.res.t = "unset" THEN [st |-> st, vals |-> acc, status |-> "open"]     \* an unset variable inside a literal
+       ELSE EvalList(sem, e.st, Tail(es), Append(acc, GCopy(e.res)))
+\* evaluate the subject, find the alternative, bind its names: m = "yes" (st: with the bindings) / "no" / a status
+MatchEnter(sem, st, e, pats) ==
+  LET sv == EvalR(sem, st, e) IN
+  IF sv.status # "ok" THEN [st |-> st, m |-> sv.status]
+  ELSE IF sv.res.t = "unset" THEN [st |-> st, m |-> "open"]       \* an unset subject: C19's
+  ELSE LET pm == PatAlts(sem, sv.st, pats, sv.res, 1) IN
+       IF pm.m = "yes" THEN [st |-> BindAll(sv.st, pm.b), m |-> "yes"] ELSE [st |-> sv.st, m |-> pm.m]
+EvalR(sem, st, r) ==
+  CASE r.r \in {"num", "str", "arrlit", "objlit"} -> LET m == MkLit(sem, st, r) IN R3(m.st, m.val, "ok")
+    [] r.r = "path" ->
+         LET rd == RdP(sem, st, r.p) IN
+         IF rd.status # "ok" THEN rd ELSE IF PureMethodRead(sem, st, r.p) THEN R3(st, Missing, "open") ELSE rd
+    [] r.r = "pluck" ->
+         LET rd == RdP(sem, st, r.p) IN
+         IF rd.status # "ok" THEN rd
+         ELSE IF rd.res.t # "obj" THEN R3(st, Missing, "open")       \* pluck of anything else: C16's
+         ELSE IF PureMethodRead(sem, st, r.p) THEN R3(st, Missing, "open")
+         ELSE LET m == MkLit(sem, rd.st, r) IN R3(m.st, m.val, "ok")
+    [] r.r = "sort" ->
+         LET rd == RdP(sem, st, r.p) IN
+         IF rd.status # "ok" THEN rd
+         ELSE IF rd.res.t # "arr" THEN R3(st, Missing, "open")       \* sort of anything else: C16's
+         ELSE LET es == ElemsOf(sem, rd.st, rd.res) IN
+              IF \E i \in 1..Len(es) : es[i].t = "specnull" THEN R3(st, Missing, "wild")
+              \* the order of containers, booleans and nulls, and of strings longer than StrRank looks: C15's
+              ELSE IF \E i \in 1..Len(es) : es[i].t \notin {"num", "str"} \/ (es[i].t = "str" /\ Len(es[i].s) > 4) THEN R3(st, Missing, "open")
+              ELSE LET m == MkArr(sem, rd.st, ListSortItems(es)) IN R3(m.st, m.val, "ok")
+    [] r.r = "arrof" ->
+         LET l == EvalList(sem, st, r.es, <<>>) IN
+         IF l.status # "ok" THEN R3(st, Missing, l.status)
+         ELSE LET m == MkArr(sem, l.st, l.vals) IN R3(m.st, m.val, "ok")
+    [] r.r = "objof" ->
+         LET e == EvalR(sem, st, r.e) IN
+         IF e.status # "ok" THEN e
+         ELSE IF e.res.t = "unset" THEN R3(st, Missing, "open")
+         ELSE LET s1 == Alloc(e.st, ObjC("k" :> GCopy(e.res))) IN R3(s1, Obj(Len(s1.heap)), "ok")
+    [] r.r = "asg" -> SetStep(sem, st, r.p, r.e)
+    [] r.r = "upd" ->
+         LET u == UpdStep(sem, st, Upd(r.kind, r.p)) IN
+         IF u.status # "ok" \/ r.kind \in {"preinc", "postinc", "predec", "postdec"} THEN u
+         ELSE LET rd == RdQ(sem, u.st, r.p) IN R3(u.st, rd.res, rd.status)     \* (p += 2): the new value
+    [] r.r = "meth" -> MethStep(sem, st, r.kind, r.p, Num(6))       \* p.push(6) yields p itself: the same array, not a copy
+    [] r.r = "match" ->
+         LET en == MatchEnter(sem, st, r.e, r.pats) IN
+         IF en.m = "yes" THEN
+            IF \E b \in WriteBases(r.arm) : en.st.env[b].t = "unset" THEN R3(st, Missing, "open")
+            ELSE LET a == EvalR(sem, en.st, r.arm) IN R3(Unbind(a.st), a.res, a.status)
+         ELSE IF en.m = "no" THEN R3(en.st, Null, "ok")               \* no alternative matches: null
+         ELSE R3(st, Missing, en.m)
+    [] r.r = "call" ->
+         LET a == EvalR(sem, st, r.e) IN
+         IF a.status # "ok" THEN a
+         ELSE IF r.f \in {"gx", "ga"} /\ a.st.env["x"].t = "unset" THEN R3(st, Missing, "open")   \* x would be a local of the function
+         ELSE LET s1 == SetEnv(a.st, "v", GCopy(a.res))
+                  V(ss) == P("v", ss)
+                  b == CASE r.f = "id" -> RdP(sem, s1, V(<<>>))
+                         [] r.f = "h0" -> RdP(sem, s1, V(<<I(0)>>))
+                         [] r.f = "hk" -> RdP(sem, s1, V(<<K("k")>>))
+                         [] r.f = "hj" -> RdP(sem, s1, V(<<K("j")>>))
+                         [] r.f = "gx" -> RdP(sem, s1, P("x", <<>>))
+                         [] OTHER -> IF s1.env["v"].t = "unset" THEN R3(s1, Missing, "open") ELSE SetStep(sem, s1, P("x", <<>>), RPath(V(<<>>)))
+              IN IF b.status # "ok" THEN b
+                 ELSE R3(SetEnv(b.st, "v", Unset), GCopy(b.res), "ok")
+
+\* p = r: the value stored is the result
+SetStep(sem, st, p, r) ==
+         IF r.r = "path" THEN
             \* the pinned code evaluates the left side first, and (with padding reads) that already
             \* pads the array, which the right side then sees: y[2] = y[-3]
-            LET lt == IF sem = "G1" THEN GReadPath(st, op.p, TRUE) ELSE [st |-> st, status |-> "ok"]
+            LET lt == IF sem = "G1" THEN GReadPath(st, p, TRUE) ELSE [st |-> st, status |-> "ok"]
                 st1 == IF sem = "G1" /\ lt.status = "ok" THEN Despec(st, lt.st) ELSE st
-                rd == RdP(sem, st1, op.r.p)
-                target == IF sem = "G1" THEN GResolvePath(st1, op.p) ELSE op.p
+                rd == RdP(sem, st1, r.p)
+                target == IF sem = "G1" THEN GResolvePath(st1, p) ELSE p
             IN
             IF lt.status = "error" THEN R3(st, Missing, "error")
             ELSE IF rd.status # "ok" THEN rd
-            ELSE IF PureMethodRead(sem, st1, op.r.p) THEN R3(st, Missing, "open")
+            ELSE IF PureMethodRead(sem, st1, r.p) THEN R3(st, Missing, "open")
             ELSE IF sem # "I" /\ rd.st.taint > st1.taint THEN R3(st, Missing, "wild")   \* both sides evaluated before the store
             ELSE IF rd.res.t = "fresh" THEN R3(st, Missing, "wild")     \* the right side is the cell the left side just padded
             ELSE IF sem # "I" /\ GMakesCycle(rd.st, target, rd.res, Fuel) THEN R3(st, Missing, "wild")
             ELSE IF rd.res.t = "unset" THEN R3(st, Missing, "open")
-            ELSE AsP(sem, rd.st, target, GCopy(rd.res))
-         ELSE IF op.r.r = "pluck" THEN
-            LET rd == RdP(sem, st, op.r.p) IN
+            ELSE IF sem = "I" /\ CycleI(rd.st, target, GCopy(rd.res)) THEN R3(st, Missing, "open")      \* (a statement that is such a store is not generated: MakesCycle)
+            ELSE LET a == AsP(sem, rd.st, target, GCopy(rd.res)) IN R3(a.st, GCopy(rd.res), a.status)
+         ELSE IF r.r = "pluck" THEN
+            LET rd == RdP(sem, st, r.p) IN
             IF rd.status # "ok" THEN rd
             ELSE IF rd.res.t # "obj" THEN R3(st, Missing, "open")       \* pluck of anything else: C16's
-            ELSE IF PureMethodRead(sem, st, op.r.p) THEN R3(st, Missing, "open")
-            ELSE IF sem # "I" /\ \E k \in DOMAIN rd.st.heap[rd.res.id].m : GMakesCycle(rd.st, op.p, rd.st.heap[rd.res.id].m[k], Fuel) THEN R3(st, Missing, "wild")
-            ELSE LET m == MkLit(sem, rd.st, op.r) IN AsP(sem, m.st, op.p, m.val)
-         ELSE LET m == MkLit(sem, st, op.r) IN AsP(sem, m.st, op.p, m.val)
+            ELSE IF PureMethodRead(sem, st, r.p) THEN R3(st, Missing, "open")
+            ELSE IF sem # "I" /\ \E k \in DOMAIN rd.st.heap[rd.res.id].m : GMakesCycle(rd.st, p, rd.st.heap[rd.res.id].m[k], Fuel) THEN R3(st, Missing, "wild")
+            ELSE LET m == MkLit(sem, rd.st, r)  a == AsP(sem, m.st, p, m.val) IN
+                 IF sem = "I" /\ CycleI(m.st, p, m.val) THEN R3(st, Missing, "open") ELSE R3(a.st, m.val, a.status)
+         ELSE IF r.r \in {"num", "str", "arrlit", "objlit"} THEN
+            LET m == MkLit(sem, st, r)  a == AsP(sem, m.st, p, m.val) IN R3(a.st, m.val, a.status)
+         ELSE
+            LET rd == EvalR(sem, st, r) IN
+            \* the pinned code turns an unset variable into a container when it evaluates the left side, before the right side
+            \* (which mentions the variable too) is evaluated: not fixed by the statement
+            IF st.env[p.base].t = "unset" /\ p.sels # <<>> /\ p.base \in RhsBases(r) THEN R3(st, Missing, IF sem = "I" THEN "open" ELSE "wild")
+            ELSE IF rd.status # "ok" THEN R3(st, Missing, rd.status)
+            ELSE IF rd.res.t = "unset" THEN R3(st, Missing, "open")
+            ELSE LET v == GCopy(rd.res) IN
+                 IF sem = "I" /\ CycleI(rd.st, p, v) THEN R3(st, Missing, "open")
+                 ELSE IF sem # "I" /\ GMakesCycle(rd.st, p, v, Fuel) THEN R3(st, Missing, "wild")
+                 ELSE IF sem = "I" /\ (TrailOf(st, p) # TrailOf(rd.st, p) \/ MethCount(r) > 1) THEN R3(st, Missing, "open")
+                 ELSE IF sem # "I" /\ GResolvePath(st, p) # GResolvePath(rd.st, p) THEN R3(st, Missing, "wild")
+                 ELSE LET a == AsP(sem, rd.st, p, v) IN R3(a.st, v, a.status)
+
+(* one operation: [st, res (Missing = the statement prints no result), status] *)
+Step(sem, st, op) ==
+  CASE op.kind = "set" -> LET s == SetStep(sem, st, op.p, op.r) IN R3(s.st, Missing, s.status)
     [] op.kind \in UpdKinds -> UpdStep(sem, st, op)
     [] op.kind = "read" -> IF PureMethodRead(sem, st, op.p) THEN R3(st, Missing, "open") ELSE RdP(sem, st, op.p)
     [] op.kind = "call" ->
-         LET rd == RdP(sem, st, op.p) IN
+         LET rd == EvalR(sem, st, ArgOf(op)) IN
          IF rd.status # "ok" THEN rd
-         ELSE IF PureMethodRead(sem, st, op.p) THEN R3(st, Missing, "open")
          ELSE LET as == Body(sem, SetEnv(rd.st, "v", GCopy(rd.res)), op.f, 7)
               IN R3(SetEnv(as.st, "v", Unset), Missing, as.status)
     [] op.kind \in {"loop", "loop2"} ->
-         LET rd == RdP(sem, st, op.p) IN
+         LET rd == EvalR(sem, st, ArgOf(op)) IN
          IF rd.status # "ok" THEN rd
          ELSE IF rd.res.t \notin {"arr", "obj"} THEN R3(st, Missing, "open")     \* other iterables: C07's
          ELSE IF rd.res.t = "obj" /\ ~KeysKnown(rd.st.heap[rd.res.id].m) THEN R3(st, Missing, "open")
          ELSE LET lp == LoopFrom(sem, rd.st, LoopElems(sem, rd.st, rd.res, op.kind = "loop2"), 1, op.f)
               IN R3(SetEnv(SetEnv(lp.st, "e", Unset), "g", Unset), Missing, lp.status)
+    [] op.kind = "match" ->
+         LET en == MatchEnter(sem, st, op.r, op.pats) IN
+         IF en.m = "yes" THEN
+            IF \E n \in BodyNeeds(op.f) : en.st.env[n].t = "unset" THEN R3(st, Missing, "open")   \* the body would create a variable
+            ELSE LET b == Body(sem, en.st, op.f, 9) IN R3(Unbind(b.st), Missing, b.status)
+         ELSE IF en.m = "no" THEN R3(en.st, Missing, "ok")
+         ELSE R3(st, Missing, en.m)
     [] op.kind \in MethKinds ->
-         \* the receiver must be an array (a method of anything else: C15's / C16's)
-         LET rd == RdQ(sem, st, op.p) IN
-         IF rd.status # "ok" THEN rd
-         ELSE IF rd.res.t # "arr" THEN R3(st, Missing, "open")
-         ELSE IF sem = "I" THEN
-              LET r == CASE op.kind = "pop" -> ListPop(rd.st.heap, rd.res.id)
-                         [] op.kind = "popfirst" -> ListPopFirst(rd.st.heap, rd.res.id)
-                         [] OTHER -> ListPush(rd.st.heap, rd.res.id, Num(6))
-              IN R3([rd.st EXCEPT !.heap = r.h], r.res, "ok")
-         ELSE LET r == GMethod(rd.st, op.p, rd.res, op.kind, Num(6)) IN R3(r.st, r.res, r.status)
+         IF op.kind # "push" \/ op.r.r = "none" THEN MethStep(sem, st, op.kind, op.p, Num(6))
+         ELSE \* p.push(r): the argument must leave the receiver alone (the pinned code looks the receiver up first)
+              LET a == EvalR(sem, st, op.r) IN
+              IF a.status # "ok" THEN a
+              ELSE IF a.res.t = "unset" THEN R3(st, Missing, "open")
+              ELSE IF sem = "I" /\ (ReadPath(st, op.p) # ReadPath(a.st, op.p) \/ TrailOf(st, Path(op.p.base, op.p.sels \o <<I(0)>>)) # TrailOf(a.st, Path(op.p.base, op.p.sels \o <<I(0)>>))) THEN R3(st, Missing, "open")
+              ELSE IF sem # "I" /\ GReadPath(st, op.p, FALSE).res # GReadPath(a.st, op.p, FALSE).res THEN R3(st, Missing, "wild")
+              ELSE IF sem = "I" /\ ReadPath(a.st, op.p).t = "arr" /\ IsCont(a.res) /\ ReadPath(a.st, op.p).id \in ReachFrom(a.st, a.res, Fuel) THEN R3(st, Missing, "open")   \* a cycle
+              ELSE IF sem # "I" /\ a.res.t \in {"arr", "obj"} /\ GReadPath(a.st, op.p, FALSE).res.t = "arr" /\ GReadPath(a.st, op.p, FALSE).res.id \in GReach(a.st, a.res, Fuel) THEN R3(st, Missing, "wild")
+              ELSE MethStep(sem, a.st, "push", op.p, GCopy(a.res))
 
 \* the paths an operation only reads
-ReadPaths(op) == CASE op.kind = "set" -> IF op.r.r \in {"path", "pluck"} THEN {op.r.p} ELSE {}
-                   [] op.kind \in {"read", "call", "loop", "loop2"} -> {op.p}
+RECURSIVE RhsReads(_)
+RhsReads(r) ==
+  CASE r.r \in {"path", "pluck", "sort"} -> {r.p}
+    [] r.r = "arrof" -> UNION {RhsReads(r.es[i]) : i \in 1..Len(r.es)}
+    [] r.r \in {"objof", "asg"} -> RhsReads(r.e)
+    [] r.r = "match" -> RhsReads(r.e) \cup RhsReads(r.arm)
+    [] r.r = "call" -> RhsReads(r.e)
+    [] OTHER -> {}
+ReadPaths(op) == CASE op.kind = "set" -> RhsReads(op.r)
+                   [] op.kind = "read" -> {op.p}
+                   [] op.kind \in {"call", "loop", "loop2"} -> RhsReads(ArgOf(op))
+                   [] op.kind = "match" -> RhsReads(op.r)
+                   [] op.kind = "push" -> RhsReads(op.r)
                    [] OTHER -> {}
-SkipOf(st, op) == {p.base : p \in {q \in ReadPaths(op) : ThroughUnset(st, q)}}
+SkipOf(st, op) == {p.base : p \in {q \in ReadPaths(op) : q.base \in ObsNames /\ ThroughUnset(st, q)}}
 
 Observe(sem, st) == [n \in ObsNames |-> TreeOf(sem, st, st.env[n])]
 ResTree(sem, st, res) == IF res.t = "missing" THEN Null ELSE TreeOf(sem, st, res)
@@ -305,13 +574,6 @@ RECURSIVE RefSum(_, _, _)
 RefSum(heap, id, i) == IF i = 0 THEN 0 ELSE RefsIn(heap[i], id) + RefSum(heap, id, i - 1)
 RefCount(st, id) == Cardinality({n \in Names : IsRefTo(st.env[n], id)}) + RefSum(st.heap, id, Len(st.heap))
 NoSharing(st) == \A id \in 1..Len(st.heap) : RefCount(st, id) <= 1
-
-\* the deepest proper prefix of p that resolves to an existing container
-RECURSIVE Deepest(_, _, _)
-Deepest(st, p, n) ==
-  IF n < 0 THEN [n |-> -1, v |-> Unset]
-  ELSE LET v == ReadFrom(st, st.env[p.base], SubSeq(p.sels, 1, n)) IN
-       IF IsCont(v) THEN [n |-> n, v |-> v] ELSE Deepest(st, p, n - 1)
 
 \* inserting a container below itself would create a cycle (rendering cycles is C17's / C04's)
 MakesCycle(st, op) ==
@@ -379,6 +641,21 @@ RawTree(st, n) == IF st.env[n].t = "unset" THEN Unset ELSE Tree(st, st.env[n], F
 \* a law: where its antecedent holds its consequence must; chk records that it was exercised (vacuity)
 L(name, ante, conseq) == [bad |-> IF ante /\ ~conseq THEN {name} ELSE {}, chk |-> IF ante THEN {name} ELSE {}]
 LAll(ls) == [bad |-> UNION {l.bad : l \in ls}, chk |-> UNION {l.chk : l \in ls}]
+\* is a sequence of values in the order sort() must produce, and does it hold the same values as another?
+SortedSeq(s) == LET ks == SortKey(s) IN \A i, j \in 1..Len(s) : i < j => ks[i] <= ks[j]
+SameBag(s, t) == Len(s) = Len(t) /\ \A i \in 1..Len(s) : Cardinality({j \in 1..Len(s) : s[j] = s[i]}) = Cardinality({j \in 1..Len(t) : t[j] = s[i]})
+\* an expression without stores, steps and length-changing methods
+RECURSIVE PureR(_)
+PureR(r) ==
+  CASE r.r \in {"asg", "upd", "meth"} -> FALSE
+    [] r.r = "arrof" -> \A i \in 1..Len(r.es) : PureR(r.es[i])
+    [] r.r = "objof" -> PureR(r.e)
+    [] r.r = "match" -> PureR(r.e) /\ PureR(r.arm)
+    [] r.r = "call" -> r.f # "ga" /\ PureR(r.e)
+    [] OTHER -> TRUE
+\* nothing that existed before has changed (new containers may have been made)
+SameOld(st, st2) == st2.env = st.env /\ \A id \in 1..Len(st.heap) : st2.heap[id] = st.heap[id]
+
 StepLaws(st, op, r) ==
   LET st2 == r.st
       ok == r.status = "ok"
@@ -386,14 +663,30 @@ StepLaws(st, op, r) ==
       lit == MkLit("I", st, op.r)            \* only used for literal right-hand sides
       isLit == op.r.r \in {"num", "str", "arrlit", "objlit"}
       isPluck == op.r.r = "pluck"
+      isOld == isLit \/ op.r.r \in {"path", "pluck"}
+      ev == EvalR("I", st, ArgOf(op))        \* only used for the other right-hand sides / arguments
       rid == ReadPath(st, op.p).id           \* only used for methods
-      onlyVar == op.f \in {"lr", "lp", "lm", "la", "fr", "fp", "fa"}    \* the body changes the variable itself only
+      onlyVar == op.f \in {"lr", "lp", "lm", "la", "fr", "fp", "fa", "mr", "mp", "ma", "nr", "np", "m2"}    \* the body changes the variable itself only
       incs == {"preinc", "postinc", "predec", "postdec"}
   IN LAll({
   \* a store changes only the deepest existing container on its path, only at the next selector
-  L("frame", okset, FrameLaw(IF isLit THEN lit.st ELSE st, st2, op.p)),
+  L("frame", okset /\ isOld, FrameLaw(IF isLit THEN lit.st ELSE st, st2, op.p)),
+  \* ... whatever the right-hand side is: everything else is as its evaluation left it
+  L("framex", okset /\ ~isOld, FrameLaw(ev.st, st2, op.p)),
   \* reading the target back yields what was stored (the same reference for a container)
-  L("readback", okset /\ ~isPluck, ReadPath(st2, op.p) = (IF isLit THEN lit.val ELSE ReadPath(st, op.r.p))),
+  L("readback", okset /\ isOld /\ ~isPluck, ReadPath(st2, op.p) = (IF isLit THEN lit.val ELSE ReadPath(st, op.r.p))),
+  L("readbackx", okset /\ ~isOld, ReadPath(st2, op.p) = Stored(ev.res)),
+  \* a literal, sort() and pluck() yield a container that did not exist before
+  L("fresh", okset /\ op.r.r \in {"sort", "arrof", "objof", "arrlit", "objlit", "pluck"},
+       LET o == ReadPath(st2, op.p) IN IsCont(o) /\ o.id > Len(st.heap)),
+  \* p.sort() leaves p alone and yields p's elements in order
+  L("sort", okset /\ op.r.r = "sort",
+       LET o == ReadPath(st2, op.p)
+           src == ReadPath(st, op.r.p)
+       IN /\ SortedSeq(ev.st.heap[o.id].items) /\ SameBag(ev.st.heap[o.id].items, st.heap[src.id].items)
+          /\ SameOld(st, ev.st)),
+  \* an expression without stores changes nothing that existed
+  L("pure", ok /\ op.kind \in {"set", "call", "loop", "loop2", "match", "push"} /\ PureR(ArgOf(op)) /\ ev.status = "ok", SameOld(st, ev.st)),
   \* p.pluck("k", "n") is a NEW object that holds exactly these two members, with the values p has (null where it has none)
   L("pluck", okset /\ isPluck,
        LET o == ReadPath(st2, op.p)
@@ -401,21 +694,27 @@ StepLaws(st, op, r) ==
        IN /\ o.t = "obj" /\ o.id > Len(st.heap)
           /\ st2.heap[o.id].m = [k \in {"k", "n"} |-> IF k \in DOMAIN src THEN src[k] ELSE Null]),
   \* a length-changing method changes the array it is invoked on, there only at the end / the start, and nothing else
-  L("meth", ok /\ op.kind \in MethKinds,
+  L("meth", ok /\ op.kind \in MethKinds /\ op.r.r = "none",
        LET old == st.heap[rid].items
            new == st2.heap[rid].items
        IN /\ st2.env = st.env /\ \A id \in 1..Len(st.heap) : id # rid => st2.heap[id] = st.heap[id]
           /\ CASE op.kind = "push" -> new = Append(old, Num(6)) /\ r.res = Arr(rid)
                [] op.kind = "pop" -> IF old = <<>> THEN new = old /\ r.res = Null ELSE new \o <<r.res>> = old
                [] OTHER -> IF old = <<>> THEN new = old /\ r.res = Null ELSE <<r.res>> \o new = old),
-  \* a loop variable / a parameter holds a COPY of a scalar: a body that changes only the variable changes nothing else
-  L("loopcopy", ok /\ op.kind \in {"loop", "loop2"} /\ onlyVar, st2 = st),
-  L("callcopy", ok /\ op.kind = "call" /\ onlyVar, st2 = st),
+  \* p.push(e) appends the value of e to what the evaluation of e left, and changes nothing else
+  L("pushx", ok /\ op.kind = "push" /\ op.r.r # "none",
+       /\ st2.env = ev.st.env /\ \A id \in 1..Len(ev.st.heap) : id # rid => st2.heap[id] = ev.st.heap[id]
+       /\ st2.heap[rid].items = Append(ev.st.heap[rid].items, Stored(ev.res))),
+  \* a loop variable / a parameter / a name bound by a pattern holds a COPY of a scalar: a body that changes only the variable changes nothing else
+  L("loopcopy", ok /\ op.kind \in {"loop", "loop2"} /\ onlyVar /\ op.r.r = "none", st2 = st),
+  L("callcopy", ok /\ op.kind = "call" /\ onlyVar /\ op.r.r = "none", st2 = st),
+  L("sinkcopy", ok /\ op.kind \in {"call", "loop", "loop2", "match"} /\ onlyVar /\ op.r.r # "none", st2 = ev.st),
   \* two names for one container still show the same tree after any operation that does not rebind them
   L("alias", ok /\ \E a, b \in ObsNames : a # b /\ IsCont(st.env[a]) /\ st.env[a] = st.env[b],
        \A a, b \in ObsNames :
           (/\ a # b /\ IsCont(st.env[a]) /\ st.env[a] = st.env[b]
-           /\ ~(op.kind \in {"set"} \cup UpdKinds /\ op.p.sels = <<>> /\ op.p.base \in {a, b}))
+           /\ ~(op.kind \in {"set"} \cup UpdKinds /\ op.p.sels = <<>> /\ op.p.base \in {a, b})
+           /\ (op.kind \in {"set", "call", "loop", "loop2", "match", "push"} => WriteBases(ArgOf(op)) \cap {a, b} = {}))
           => Tree(st2, st2.env[a], Fuel) = Tree(st2, st2.env[b], Fuel)),
   L("readpure", op.kind = "read", st2 = st),
   \* the outcome of a store (done / runtime error / not fixed) is the one of the tree semantics
@@ -423,7 +722,7 @@ StepLaws(st, op, r) ==
   \* without sharing, the heap semantics equals substitution in the tree
   L("tree", okset /\ op.r.r \in {"num", "str"} /\ NoSharing(st),
        RawTree(st2, op.p.base) = TSub(RawTree(st, op.p.base), op.p.sels, lit.val)),
-  L("others", ok /\ op.kind \in {"set"} \cup UpdKinds /\ NoSharing(st),
+  L("others", ok /\ op.kind \in {"set"} \cup UpdKinds /\ NoSharing(st) /\ (op.kind = "set" => PureR(op.r)),
        \A n \in ObsNames \ {op.p.base} : RawTree(st2, n) = RawTree(st, n)),
   L("incdec", ok /\ op.kind \in incs,
        LET old == NumOf(ReadPath(st, op.p))
@@ -433,6 +732,93 @@ StepLaws(st, op, r) ==
   L("compound", ok /\ op.kind \in {"cadd", "csub"} /\ ReadPath(st, op.p).t \in {"num", "null"},
        ReadPath(st2, op.p) = Num(NumOf(ReadPath(st, op.p)) + (IF op.kind = "cadd" THEN 2 ELSE -2))),
   L("updframe", ok /\ op.kind \in UpdKinds, FrameLaw(st, st2, op.p)) })
+
+-----------------------------------------------------------------------------
+(* Mode = "expr": the value of every expression form, put into every sink.   *)
+Pp == P("p", <<>>)
+Pq == P("q", <<>>)
+PatPQ == PA(<<PN("p"), PN("q")>>)
+\* the expression forms over a source place s
+EForms(s) ==
+  { RPath(s), RAsg(s, RNum(7)), RAsg(s, RStr("s")), RAsg(s, RArr), RAsg(s, RPath(D(<<K("n")>>))),
+    RUpdE("cadd", s), RUpdE("cstr", s), RUpdE("preinc", s), RUpdE("postinc", s),
+    RMatchE(RPath(s), <<PN("p")>>, RPath(Pp)),                 \* match (s) { p => p }
+    RMatchE(RNum(1), <<PL(1)>>, RPath(s)),                     \* match (1) { 1 => s }: the arm is a place
+    RMatchE(RNum(1), <<PL(1)>>, RAsg(s, RNum(7))),             \* match (1) { 1 => s = 7 }
+    RMatchE(RPath(s), <<PatPQ>>, RPath(Pq)),                   \* match (s) { [p, q] => q }
+    RMatchE(RPath(s), <<PL(1), PatPQ>>, RUpdE("postinc", Pp)), \* match (s) { 1, [p, q] => p++ }
+    RCallE("id", RPath(s)), RCallE("h0", RPath(s)), RCallE("hk", RPath(s)), RCallE("hj", RPath(s)), RCallE("ga", RPath(s)), RCallE("gx", RPath(s)),
+    RSort(s), RMethE("pop", s), RMethE("popfirst", s), RMethE("push", s), RPluck(s),
+    RArrOf(<<RPath(s), RNum(2)>>), RObjOf(RPath(s)) }
+  \cup (IF Wide THEN { RUpdE("csub", s), RUpdE("predec", s), RUpdE("postdec", s), RAsg(s, RObj), RAsg(s, RAsg(Y(<<K("j")>>), RNum(7))),
+                       RCallE("id", RAsg(s, RNum(7))), RArrOf(<<>>), RArrOf(<<RSort(s)>>), RMatchE(RPath(s), <<PA(<<PN("p"), PA(<<PN("q"), PL(3)>>)>>)>>, RPath(Pq)) }
+        ELSE {})
+\* the patterns and bodies of a match statement whose subject is e
+EPats == { <<PN("p")>>, <<PatPQ>>, <<PL(1), PatPQ>>, <<PA(<<PL(8), PN("q")>>)>>, <<PA(<<PN("p"), PA(<<PN("q"), PL(3)>>)>>)>> }
+RECURSIVE PatNames(_)
+PatNames(pat) == CASE pat.pt = "name" -> {pat.nm} [] pat.pt = "lit" -> {} [] OTHER -> UNION {PatNames(pat.ps[i]) : i \in 1..Len(pat.ps)}
+AltNames(pats) == UNION {PatNames(pats[i]) : i \in 1..Len(pats)}
+\* the sinks of the value of e, in four groups (one initial state per prefix, source place and group)
+ESinks(e, g) ==
+  CASE g = 1 ->
+         {Set(t, e) : t \in {Y(<<>>), Y(<<K("j")>>), Y(<<I(1)>>), X(<<>>), D(<<K("j")>>)}}
+         \cup {Set(Y(<<>>), r) : r \in {RArrOf(<<e, RNum(2)>>), RArrOf(<<RNum(2), e>>), RObjOf(e), RCallE("id", e), RArrOf(<<RArrOf(<<e>>)>>),
+                                        RMatchE(e, <<PN("p")>>, RPath(Pp)), RAsg(D(<<K("j")>>), e)}}
+    [] g = 2 ->
+         {CallR(f, e) : f \in {"fr", "fp", "fa", "fk", "fi"}}
+         \cup {LoopR(f, e) : f \in {"lr", "lp", "lk", "li"}} \cup {Loop2R("lp", e)}
+         \cup {PushR(p, e) : p \in {X(<<>>), D(<<K("k")>>)}}
+    [] OTHER ->
+         UNION {{Match(e, pats, f) : f \in {h \in MatchFs : BodyNeeds(h) \subseteq AltNames(pats)}} :
+                pats \in (IF g = 3 THEN {<<PN("p")>>, <<PatPQ>>} ELSE EPats \ {<<PN("p")>>, <<PatPQ>>})}
+\* the forms that are the subject of a match statement (Wide: every form)
+ESubjForms(s) == IF Wide THEN EForms(s)
+                 ELSE {RPath(s), RCallE("id", RPath(s)), RArrOf(<<RPath(s), RNum(2)>>), RAsg(s, RArr), RSort(s), RMatchE(RNum(1), <<PL(1)>>, RPath(s))}
+\* the forms that need an array (after the prefixes that only vary the array)
+EArrForms(s) == {RPath(s), RSort(s), RMethE("pop", s), RMethE("popfirst", s), RMethE("push", s), RCallE("id", RPath(s)), RMatchE(RPath(s), <<PatPQ>>, RPath(Pq))}
+\* prefixes, each with the source places that are used after it, and whether every form is (Wide: always) or only
+\* the forms that need an array are
+EPre ==
+  << [ops |-> <<Set(X(<<>>), RNum(7))>>, src |-> <<X(<<>>), D(<<K("n")>>)>>, all |-> TRUE],
+     [ops |-> <<Set(X(<<>>), RArr)>>, src |-> <<X(<<>>), X(<<I(0)>>)>>, all |-> TRUE],                                                  \* [8, 9]: in order
+     [ops |-> <<Set(X(<<>>), RObj)>>, src |-> <<X(<<>>), X(<<K("k")>>), X(<<K("j")>>)>>, all |-> TRUE],
+     [ops |-> <<Set(D(<<K("k"), I(1)>>), RNum(2)), Set(X(<<>>), RPath(D(<<K("k")>>)))>>, src |-> <<D(<<K("k")>>), D(<<K("k"), I(0)>>)>>, all |-> TRUE],   \* $.k = [1, 2], also held by x
+     [ops |-> <<>>, src |-> <<X(<<>>), D(<<K("k"), I(1), K("k")>>)>>, all |-> TRUE],
+     [ops |-> <<Set(X(<<>>), RArrOf(<<RNum(9), RNum(8)>>))>>, src |-> <<X(<<>>)>>, all |-> FALSE],                                      \* not in order
+     [ops |-> <<Set(X(<<>>), RArrOf(<<RStr("s"), RNum(7)>>))>>, src |-> <<X(<<>>)>>, all |-> FALSE],                                    \* mixed: ordered as strings
+     [ops |-> <<Set(X(<<>>), RArrOf(<<RNum(7)>>))>>, src |-> <<X(<<>>)>>, all |-> FALSE],
+     [ops |-> <<Set(X(<<>>), RArrOf(<<>>))>>, src |-> <<X(<<>>)>>, all |-> FALSE],
+     [ops |-> <<Set(D(<<K("k"), I(1)>>), RNum(0))>>, src |-> <<D(<<K("k")>>)>>, all |-> FALSE],                                         \* $.k = [1, 0]
+     [ops |-> <<Set(X(<<>>), RArrOf(<<RNum(1), RArrOf(<<RNum(2), RNum(3)>>)>>))>>, src |-> <<X(<<>>), X(<<I(1)>>)>>, all |-> FALSE],   \* [1, [2, 3]]
+     [ops |-> <<Set(X(<<>>), RPath(D(<<>>)))>>, src |-> <<X(<<K("n")>>), X(<<K("k")>>)>>, all |-> FALSE] >>
+\* the cases: one per prefix, source place and group of sinks
+ECases == FlattenSeq([i \in 1..Len(EPre) |->
+             LET ss == EPre[i].src IN
+             FlattenSeq([j \in 1..Len(ss) |-> [g \in 1..4 |-> [i |-> i, s |-> ss[j], g |-> g]]])])
+ExprOps(c) ==
+  LET forms == IF c.g >= 3 THEN ESubjForms(c.s) ELSE IF Wide \/ EPre[c.i].all THEN EForms(c.s) ELSE EArrForms(c.s)
+  IN UNION {ESinks(e, c.g) : e \in forms}
+\* the statement reads only places that exist or are a missing member / element of a container that exists
+\* (a place below a missing one reads as null whatever the form)
+EUseful(st, op) ==
+  \A q \in ReadPaths(op) \cup (IF op.kind = "push" THEN {op.p} ELSE {}) :
+     \/ q.base \notin ObsNames
+     \/ ~IsAbsent(ReadFrom(st, st.env[q.base], q.sels))
+     \/ q.sels # <<>> /\ IsCont(ReadFrom(st, st.env[q.base], Prefix(q.sels)))
+\* after the statement: every scalar place that exists then is stepped or stored to (Wide: both), deepest first
+ProbePlaces ==
+  << Y(<<I(0), I(0)>>), Y(<<I(0), I(1)>>), Y(<<I(0), K("k")>>), Y(<<I(1), I(0)>>), Y(<<I(1), K("k")>>), Y(<<K("k"), K("k")>>), Y(<<K("k"), I(0)>>),
+     Y(<<K("j"), I(0)>>), Y(<<K("j"), K("k")>>), Y(<<I(0)>>), Y(<<I(1)>>), Y(<<I(2)>>), Y(<<K("k")>>), Y(<<K("j")>>), Y(<<K("n")>>),
+     X(<<I(1), I(0)>>), X(<<I(1), I(1)>>), X(<<I(0)>>), X(<<I(1)>>), X(<<I(2)>>), X(<<K("k")>>), X(<<K("n")>>),
+     D(<<K("j"), I(0)>>), D(<<K("j"), K("k")>>), D(<<K("j")>>), D(<<K("k"), I(0)>>), D(<<K("k"), I(1), K("k")>>), D(<<K("k"), I(1)>>), D(<<K("k"), I(2)>>), D(<<K("n")>>),
+     X(<<>>), Y(<<>>) >>
+ProbeOps == FlattenSeq([i \in 1..Len(ProbePlaces) |->
+               IF Wide THEN <<Upd("postinc", ProbePlaces[i]), Set(ProbePlaces[i], RNum(5))>>
+               ELSE IF i % 2 = 1 THEN <<Upd("postinc", ProbePlaces[i])>> ELSE <<Set(ProbePlaces[i], RNum(5))>>])
+OpBases(op) == RhsBases(ArgOf(op)) \cup (IF op.kind \in {"set", "push"} THEN {op.p.base} ELSE {})
+\* the probes of the places below the variables the statement mentions, and below y
+ProbesFor(op) == SelectSeq(ProbeOps, LAMBDA q : q.p.base \in OpBases(op) \cup {"y"})
+ProbeUseful(st, op) == ReadFrom(st, st.env[op.p.base], op.p.sels).t \in {"num", "str", "null"}
 
 -----------------------------------------------------------------------------
 VARIABLES hist, cur, gst, out, fin, law, idx
@@ -485,7 +871,11 @@ Apply2(h, c, g, o, op, rI) ==
       law |-> LAll({StepLaws(c["I"], op, rI), L("agree", r0.status \notin {"wild", "dead"} /\ r0.st.taint = 0, e0 = eI)})]
 
 Apply(h, c, g, o, op) == Apply2(h, c, g, o, op, Step("I", c["I"], op))
-EnabledR(c, op, rI) == rI.status \in {"ok", "error"} /\ ~MakesCycle(c["I"], op)
+\* A read through an unset variable leaves the variable open (the pinned code turns it into a container).  A statement of
+\* the old forms (one read) is kept, its variable is not compared and the history ends; a statement with an expression may
+\* mention the variable again after the read, so it is not generated
+OldForm(op) == op.kind # "match" /\ ArgOf(op).r \in {"num", "str", "arrlit", "objlit", "path", "pluck"} /\ (op.kind = "push" => op.r.r = "none")
+EnabledR(c, op, rI) == rI.status \in {"ok", "error"} /\ ~MakesCycle(c["I"], op) /\ (OldForm(op) \/ SkipOf(c["I"], op) = {})
 Enabled(c, op) == EnabledR(c, op, Step("I", c["I"], op))
 
 RECURSIVE Run(_, _)
@@ -503,9 +893,23 @@ RunGiven(s, ops) ==
        IN RunGiven([t EXCEPT !.law = LAll({@, s.law})], Tail(ops))
 Given == IF Mode = "given" THEN JsonDeserialize("given.json") ELSE <<>>
 
+\* after the statement of Mode = "expr": the probes that apply, one after the other
+RECURSIVE RunProbes(_, _)
+RunProbes(s, ops) ==
+  IF ops = <<>> \/ s.fin THEN s
+  ELSE LET op == Head(ops)
+           rI == Step("I", s.cur["I"], op)
+       IN IF ~ProbeUseful(s.cur["I"], op) \/ rI.status # "ok" THEN RunProbes(s, Tail(ops))
+          ELSE LET t == Apply2(s.hist, s.cur, s.gst, s.out, op, rI)
+               IN RunProbes([t EXCEPT !.law = LAll({@, s.law})], Tail(ops))
+
 Init == IF Mode = "given"
         THEN /\ idx \in 1..Len(Given)
              /\ hist = Start.hist /\ cur = Start.cur /\ gst = Start.gst /\ out = Start.out /\ fin = FALSE /\ law = NoLaw
+        ELSE IF Mode = "expr"
+        THEN /\ idx \in 1..Len(ECases)
+             /\ LET s == Run(Start, EPre[ECases[idx].i].ops) IN
+                /\ hist = s.hist /\ cur = s.cur /\ gst = s.gst /\ out = s.out /\ fin = s.fin /\ law = s.law
         ELSE /\ idx = 0
              /\ \E pre \in (CASE Mode = "breadth" -> Prefixes [] Mode = "names" -> NamePrefixes [] OTHER -> {<<>>}) :
                   LET s == Run(Start, pre) IN
@@ -517,8 +921,17 @@ NextGiven ==
      /\ hist' = s.hist /\ cur' = s.cur /\ gst' = s.gst /\ out' = s.out /\ law' = s.law /\ fin' = TRUE
   /\ UNCHANGED idx
 
+NextExpr ==
+  /\ Mode = "expr" /\ ~fin /\ Len(hist) = Len(EPre[ECases[idx].i].ops)
+  /\ UNCHANGED idx
+  /\ \E op \in ExprOps(ECases[idx]) :
+       LET rI == Step("I", cur["I"], op) IN
+       /\ EnabledR(cur, op, rI) /\ EUseful(cur["I"], op)
+       /\ LET s == RunProbes(Apply2(hist, cur, gst, out, op, rI), ProbesFor(op)) IN
+          /\ hist' = s.hist /\ cur' = s.cur /\ gst' = s.gst /\ out' = s.out /\ law' = s.law /\ fin' = TRUE
+
 NextOp ==
-        /\ Mode # "given"
+        /\ Mode \notin {"given", "expr"}
         /\ UNCHANGED idx
         /\ ~fin
         /\ (Mode \in {"breadth", "names"} \/ Len(hist) < MaxOps)
@@ -529,7 +942,7 @@ NextOp ==
                 /\ hist' = s.hist /\ cur' = s.cur /\ gst' = s.gst /\ out' = s.out /\ law' = s.law
                 /\ fin' = (s.fin \/ Mode \in {"breadth", "names"})
 
-Next == NextGiven \/ NextOp
+Next == NextGiven \/ NextOp \/ NextExpr
 \* every variable is a function of (hist, idx)
 View == <<hist, idx>>
 Laws == law.bad = {}
@@ -544,5 +957,5 @@ Compact(tr) ==
 CompactExp(e) == IF e.st # "ok" THEN e ELSE [st |-> "ok", res |-> Compact(e.res), vars |-> [n \in ObsNames |-> Compact(e.vars[n])]]
 CompactStep(s) == [exp |-> CompactExp(s.exp), skip |-> s.skip, taint |-> s.taint, pre |-> s.pre, mni |-> s.mni,
                    dev |-> [d \in DOMAIN s.dev |-> CompactExp(s.dev[d])]]
-Vec == hist # <<>> => Emit([ops |-> hist, chk |-> law.chk, steps |-> [i \in 1..Len(out) |-> CompactStep(out[i])]])
+Vec == (hist # <<>> /\ (Mode = "expr" => fin)) => Emit([ops |-> hist, chk |-> law.chk, steps |-> [i \in 1..Len(out) |-> CompactStep(out[i])]])
 =============================================================================
